@@ -14,6 +14,7 @@ C = {
  "C05": ("model_checking", "Same crash branching; Inv_C05: on every crash image the spec's reader returns, per guest block, the value at the last sync point (flush_meta Ok then fsync_range Ok) or the value of a later operation.", "7 C05"),
  "C06": ("model_checking", "Groups of overlapping calls under seeded random/PCT schedules owned by the deterministic executor; TLC searches placements of per-block linearization points (silent LinOther steps) that explain every Ret; final sweeps, flush and reopen sweeps must equal the linearized FlatDisk.", "7 C06"),
  "C07": ("model_checking", "Groups of 2-5 overlapping calls with 2-slice caches under seeded random/PCT schedules; the deterministic executor detects deadlock (unfinished tasks, nothing runnable, nothing in flight) and livelock (step budget), panics are caught as events; Inv_C07a (no Stuck/Panic) and Inv_C07b (Err only for invalid arguments or a backend fault) on every recorded execution.", "7 C07"),
+ "C08": ("model_checking", "Hook H1 samples the in-ram metadata view after every scheduler step; TLC evaluates Inv_C08 on it (no host cluster referenced twice, refcount >= references, hook-allocated clusters owned by nobody else); allocation histories driven through hook H3 incl. concurrent allocators: Inv_C08alloc (aligned contiguous run <= requested of clusters that were free, given to one requester); write/discard cycles with a bound on the host file length.", "7 C08"),
  "C10": ("model_checking", "Partial/straddling writes over backing-provided and compressed clusters of independently built chains; FlatDisk initial content = builder ground truth of the chain, so the COW merge is checked by Inv_C01/C02; Inv_C10 forbids any non-read request on read-only devices; exact release of compressed clusters is Inv_C03 after flush.", "7 C10"),
  "C11": ("model_checking", "discard over (offset, len) classes x cluster states x with/without backing; the FlatDisk model applies the C11 contract by cluster kind; sweeps after every discard, Inv_C03 after flush (space released), reopen sweep.", "7 C11"),
  "C12": ("model_checking", "Histories crossing refblock capacity (64-bit refcounts x 512-byte clusters), images with fewer L1 entries than needed, allocations across refblock-slice boundaries; C01-C05 invariants incl. crash branching on those executions.", "7 C12"),
